@@ -175,6 +175,14 @@ class Merge(Expr):
     def _meta(self):
         left = meta_nonempty(self.left._meta)
         right = meta_nonempty(self.right._meta)
+        left, right = _align_nonempty_keys(
+            left,
+            right,
+            self.left_on,
+            self.right_on,
+            self.left_index,
+            self.right_index,
+        )
         kwargs = self.kwargs.copy()
         if kwargs["how"] == "leftsemi":
             kwargs["how"] = "left"
@@ -816,6 +824,51 @@ def create_assign_index_merge_transfer():
         )
 
     return assign_index_merge_transfer
+
+
+def _align_nonempty_keys(left, right, left_on, right_on, left_index, right_index):
+    """Make the fake keys of two ``meta_nonempty`` frames match
+
+    ``meta_nonempty`` fills an index with other values than a column.  A key
+    that is the index of one frame and a column of the other one would thus
+    find no partner for some of the fake rows, pandas would fill them with
+    missing values in a left / right / outer join, and the meta would declare
+    float columns and an unnamed float index for integer data.
+    """
+
+    def index_from(frame, other, key):
+        if not is_scalar(key) or list(other.columns).count(key) != 1:
+            return frame
+        try:
+            keys = other[key].astype(frame.index.dtype).values
+        except (TypeError, ValueError):
+            return frame
+        name = frame.index.name
+        frame = frame.copy()
+        frame.index = keys
+        frame.index.name = name
+        return frame
+
+    if left.index.nlevels != 1 or right.index.nlevels != 1 or len(left) != len(right):
+        return left, right
+    if left_index and right_index:
+        return left, right
+    left_on = [None] if left_index else _convert_to_list(left_on)
+    right_on = [None] if right_index else _convert_to_list(right_on)
+    if left_on is None or right_on is None or len(left_on) != len(right_on):
+        return left, right
+    for lkey, rkey in zip(left_on, right_on):
+        l_is_index = left_index or (
+            lkey not in left.columns and lkey == left.index.name
+        )
+        r_is_index = right_index or (
+            rkey not in right.columns and rkey == right.index.name
+        )
+        if r_is_index and not l_is_index:
+            right = index_from(right, left, lkey)
+        elif l_is_index and not r_is_index:
+            left = index_from(left, right, rkey)
+    return left, right
 
 
 def _merge_chunk(lhs, rhs, result_meta, **kwargs):
